@@ -111,6 +111,9 @@ pub fn blank(payments: Vec<PaymentSpec>, htlcs: Vec<HtlcSpec>, seed: u64) -> Sce
         freeze_polls: false,
         initial_pending: vec![],
         ds_read_faults: vec![],
+        initial_succeeded: vec![],
+        cfg_later: None,
+        notif_stall: false,
     }
 }
 
